@@ -22,7 +22,7 @@ CASES = {"quick": 24000, "thorough": 600000}
 MIN_CASES = {"quick": 6000, "thorough": 200000}
 REQUIRED_CLASSES = ["in_situ", "disjoint", "edge_touch", "corner_touch", "nested", "crossing", "identical", "other_region", "near_miss"]
 REQUIRED_COUNTERS = ["tolerance_set_with_explicit_area", "in_situ_workloads_completed", "moved_in_place_judged", "area_overlap_judged", "mul_judged", "is_inside_judged", "point_inside_judged", "touches_judged",
-                     "split_judged", "grid_judged", "cuttable_true_judged", "cuttable_false_judged", "overlap_judged", "cut_at_coordinate_zero_judged"]
+                     "split_judged", "grid_judged", "cuttable_true_judged", "cuttable_false_judged", "overlap_judged", "cut_at_coordinate_zero_judged", "pieces_modified_in_place"]
 
 RELS = ["disjoint", "edge_touch", "corner_touch", "nested", "crossing", "identical", "other_region", "near_miss", "random"]
 REGIONS = ["_", "_", "LUT", "DSP", "#"]
@@ -186,7 +186,7 @@ def generate(rng, tier, i):
     return {"cls": rel, "fam": fam, "a": ra + [reg_a, rng.random() < 0.3, rng.random() < 0.3],
             "b": rb + [reg_b, rng.random() < 0.3, rng.random() < 0.3], "ext": [ext_x, ext_y],
             "exact": fam in ("int", "half", "quarter", "large_1e3") and rel != "near_miss" and ox.denominator in (1, 2),
-            "xcuts": cuts[0], "ycuts": cuts[1], "grid": [rng.randint(1, 8), rng.randint(1, 8)], "straddle": straddle}
+            "xcuts": cuts[0], "ycuts": cuts[1], "grid": [rng.randint(1, 8), rng.randint(1, 8)] if rng.random() < 0.9 else [1, rng.choice([1, 1, 2])], "straddle": straddle}
 
 
 def mk(spec):
@@ -366,6 +366,26 @@ def _check_pair(case, ctx):
         viol("duplicate", f"duplicate differs: {dpl} attrs {attrs(dpl)} vs {attrs(a)}")
 
     # ---- halving --------------------------------------------------------------------------------
+    def independent(name, pieces):
+        """pieces are rectangles of their own: moving one in place (as Module.recenter_rectangles, glbfloor's mirroring and the force tool do
+        with `r.center.x += dx`) must not move the parent or a sibling.  Only centres are moved: no FRAME code writes to a Shape in place, and
+        the cells of rectangle_grid legitimately share one Shape object"""
+        objs = list(pieces[:6]) + [a]
+        snap = [(o.center.x, o.center.y, o.shape.w, o.shape.h) for o in objs]
+        ctx.count("pieces_modified_in_place")
+        for k, p in enumerate(objs[:-1]):
+            p.center.x += 1.0
+            p.center.y -= 2.0
+            now = [(o.center.x, o.center.y, o.shape.w, o.shape.h) for o in objs]
+            p.center.x, p.center.y = snap[k][:2]
+            changed = [j for j in range(len(objs)) if j != k and now[j] != snap[j]]
+            if changed:
+                who = "the parent" if changed[-1] == len(objs) - 1 else f"piece {changed[0]}"
+                viol("piece_shares_state", f"{name}: moving piece {k} in place also moved {who} (a shared Point object)")
+                for o, v in zip(objs, snap):
+                    o.center.x, o.center.y = v[:2]
+                return
+
     def judge_split(name, pieces, expect):
         ctx.count("split_judged")
         ctx.nontrivial(True)
@@ -385,6 +405,7 @@ def _check_pair(case, ctx):
                 break
             if p is a:
                 viol("split_alias", f"{name}: piece is the parent object")
+        independent(name, list(pieces))
 
     xm, ym = A.cx, A.cy
     lr = [XR(A.x0, xm, A.y0, A.y1), XR(xm, A.x1, A.y0, A.y1)]
@@ -506,3 +527,4 @@ def _check_pair(case, ctx):
             viol("grid_geometry", f"rectangle_grid({nr},{nc}) cell sizes are not {float(sw)}x{float(sh)}")
         if any(attrs(p) != attrs(a) for p in gr):
             viol("grid_attrs", "grid cell attributes differ from the parent's")
+        independent(f"rectangle_grid({nr},{nc})", list(gr))
